@@ -450,7 +450,7 @@ def families(d):
     F = []
     F.append(fam('fn-direct', 'local f(x) = if x == 0 then 0 else 1 + f(x - 1); f(%d)' % d, '%d' % d))
     F.append(fam('fn-mutual', 'local f(x) = if x == 0 then 0 else 1 + g(x - 1), g(x) = if x == 0 then 0 else 1 + f(x - 1); f(%d)' % d, '%d' % d))
-    F.append(fam('fn-tailstrict', 'local f(x, a) = if x == 0 then a else f(x - 1, a + 1) tailstrict; f(%d, 0)' % d, '%d' % d))
+    F.append(fam('fn-tailstrict', 'local f(x, a) = if x == 0 then a else f(x - 1, a + 1) tailstrict; f(%d, 0)' % d, '%d' % d, depthful=False))   # tail calls keep no frame
     F.append(fam('fn-accumulator-thunks', 'local f(x, a) = if x == 0 then a else f(x - 1, a + 1); f(%d, 0)' % d, '%d' % d))
     F.append(fam('obj-method', 'local o = { f(x): if x == 0 then 0 else 1 + self.f(x - 1) }; o.f(%d)' % d, '%d' % d))
     F.append(fam('obj-field-chain', '{ ' + ', '.join(['a0: 0'] + ['a%d: self.a%d + 1' % (i, i - 1) for i in range(1, d + 1)]) + ' }.a%d' % d, '%d' % d))
@@ -459,7 +459,7 @@ def families(d):
     F.append(fam('arr-nest-fold', 'std.length(std.toString(std.foldl(function(a, i) [a], std.range(1, %d), [])))' % d, '%d' % (2 * d + 3)))
     F.append(fam('arr-nest-rec-manifest', 'local n(k) = if k == 0 then [] else [n(k - 1)]; std.length(std.manifestJsonMinified(n(%d)))' % d, '%d' % (2 * d + 2)))
     F.append(fam('arr-nest-deep-value', 'local n(k) = if k == 0 then [1] else [n(k - 1)]; local v = n(%d); std.length(v)' % d, '1', depthful=False))
-    F.append(fam('obj-nest-fold', 'std.length(std.toString(std.foldl(function(a, i) { x: a }, std.range(1, %d), {})))' % d, '%d' % (6 * d + 3)))
+    F.append(fam('obj-nest-fold', 'std.length(std.toString(std.foldl(function(a, i) { x: a }, std.range(1, %d), {})))' % d, '%d' % (7 * d + 3)))
     F.append(fam('obj-nest-top', 'local n(k) = if k == 0 then 1 else { x: n(k - 1) }; std.length(std.manifestJsonMinified(n(%d)))' % d, '%d' % (6 * d + 1)))
     F.append(fam('deep-eq', 'local n(k) = if k == 0 then [1] else [n(k - 1)]; n(%d) == n(%d)' % (d, d), 'true'))
     F.append(fam('deep-eq-obj', 'local n(k) = if k == 0 then { x: 1 } else { x: n(k - 1) }; n(%d) == n(%d)' % (d, d), 'true'))
